@@ -127,9 +127,12 @@ void p2_layout(void) {
         VASSERT(W_off[k] == k, "P2 pieces are written consecutively");
     }
     if (IN.compose) {
-        VASSERT(L_nfc_calls == 1 && L_nfc_out == out && L_nfc_in == W_base, "P2 composing languages: output is NFC of the joined phrase, through the injected function");
+        VASSERT(L_nfc_calls == 1, "P2 composing languages: the injected NFC is called exactly once");
+        for (int k = 0; k < 31; ++k) VASSERT(L_nfc_in_copy[k] == (char)('A' + (k % 26)), "P2 NFC receives the joined phrase");
+        VASSERT(L_nfc_in_copy[31] == '\0', "P2 NFC receives a NUL-terminated phrase");
         size_t e = 0; while (IN.dep.norm_out[e] != '\0') e++;
-        VASSERT(r == e, "P2 returned length is what the normaliser reported");
+        VASSERT(r == e, "P2 returned length is the length of the composed phrase");
+        for (size_t k = 0; k <= e; ++k) VASSERT(out[k] == IN.dep.norm_out[k], "P2 output is what the composer produced, NUL-terminated at the returned length");
     } else {
         VASSERT(L_nfc_calls == 0, "P2 other languages are not composed");
         VASSERT(r == 31, "P2 returned length = length of the joined phrase");
